@@ -179,7 +179,14 @@ func (s *Session) process() {
 
 		// 重置到初始状态
 		s.conn = nil
-		s.dataChannel = nil
+		// 数据通道必须在这里(持锁)关闭后再置空：Close 可能正由消费 routine 并发执行，
+		// 它置了 closed 标志后才去关数据通道；此处若抢先置空，数据通道就永远不会被关闭
+		s.lockW.Lock()
+		if s.dataChannel != nil {
+			s.dataChannel.Close()
+			s.dataChannel = nil
+		}
+		s.lockW.Unlock()
 		s.status = statusInit
 		stats.WspConns.Release()
 		s.logger.Info("close wsp channel")
